@@ -1359,6 +1359,7 @@ func c19GenExp(r *Run) *c19ExpIn {
 	nilChamps := rng.Intn(8) == 0  // a family with generations that recorded no champion
 	midSolved := rng.Intn(5) == 0  // solved flags anywhere, not only on the last generation
 	tieFitness := rng.Intn(3) == 0 // champions with equal fitness (the sort order under ties matters)
+	extremeFit := rng.Intn(6) == 0 // champions whose fitness is negative, hugely negative or huge
 	series := func() []float64 {
 		n := rng.Intn(6)
 		s := make([]float64, n)
@@ -1393,6 +1394,9 @@ func c19GenExp(r *Run) *c19ExpIn {
 				ch := &c19Champ{Fit: math.Round(rng.Float64()*1600) / 100, Hidden: rng.Intn(4)}
 				if tieFitness {
 					ch.Fit = float64(rng.Intn(3))
+				}
+				if extremeFit {
+					ch.Fit = []float64{-1e19, -2e19, -9.3e18, -1e300, -5.5, -0.25, 1e300}[rng.Intn(7)]
 				}
 				ch.Disabled = rng.Intn(1 << uint(2+2*ch.Hidden))
 				if rng.Intn(3) != 0 {
